@@ -17,6 +17,7 @@ type reqInfo struct {
 	resp   *ref.Msg
 	raw    []byte
 	nresp  int
+	dup    bool // the network delivered the request datagram twice, back to back
 }
 
 // deliver is a message the model expects at a client because of peer traffic.
@@ -210,6 +211,21 @@ func (x *Exec) checkWire(o *Obs, reqs []*reqInfo, emits []emit, dels []deliver, 
 				return
 			}
 			rq.nresp++
+			if rq.nresp == 2 && rq.dup && rq.resp != nil && rq.resp.Class == m.Class && rq.resp.ErrorCode() == m.ErrorCode() {
+				// the second copy of a duplicated datagram is a retransmission: the same answer again
+				if m.Class == ref.ClassSuccess && m.Method == ref.MethodAllocate {
+					r1, _ := rq.resp.Get(ref.AttrXORRelayedAddress)
+					r2, _ := m.Get(ref.AttrXORRelayedAddress)
+					if !bytes.Equal(r1, r2) {
+						x.fail([]string{"C04", "C19"}, "duplicated-allocate-two-relays", "%s: the two copies of one Allocate datagram were answered with two different relayed addresses: two allocations for one 5-tuple", ctx)
+
+						return
+					}
+				}
+				x.St.inc("duplicated-datagram-answered-twice-alike")
+
+				continue
+			}
 			if rq.nresp > 1 {
 				challenge := func(r *ref.Msg) bool {
 					return r != nil && r.Class == ref.ClassError && (r.ErrorCode() == 401 || r.ErrorCode() == 438)
